@@ -378,6 +378,10 @@ def container_configs() -> list[dict[str, typing.Any]]:
 class Echo:
     def on_request(self, net: netsim.Net, sc: netsim.ServerConn, req: wire.Request) -> None:
         host = (wire.header_get(req.headers, b"host") or [b"?"])[0].decode()
+        t = req.target.decode()
+        if t.startswith("/redir-to-"):
+            sc.write(wire.build_response(302, "Found", headers=[("Location", ORIGINS[int(t[len("/redir-to-")])] + "/t-after")], body=b""))
+            return
         sc.write_segmented([wire.build_response(200, body=("id=" + host + req.target.decode() + ";" + "y" * 40).encode())[i : i + 37] for i in range(0, 200, 37)])
 
 
@@ -449,6 +453,16 @@ def run_manager_schedule(cfg: dict[str, typing.Any], policy: tuple[typing.Any, .
                         elif kind == "request":
                             r = pm.request("GET", ORIGINS[op[1]] + f"/t{ti}")
                             res.append(("request", op[1], r.data.decode("latin-1")))
+                        elif kind == "redirected":
+                            # the manager follows a redirect from origin op[1] to origin op[2] (it asks the first pool
+                            # whether the target is the same host)
+                            r = pm.request("GET", ORIGINS[op[1]] + f"/redir-to-{op[2]}")
+                            res.append(("request", op[2], r.data.decode("latin-1")))
+                        elif kind == "pool-urlopen":
+                            p = pm.connection_from_url(ORIGINS[op[1]] + "/x")
+                            r = p.urlopen("GET", f"/t-direct{ti}")
+                            res.append(("request", op[1], r.data.decode("latin-1")))
+                            del p
                         elif kind == "stream-begin":
                             r = pm.request("GET", ORIGINS[op[1]] + f"/s{ti}", preload_content=False)
                             keep["responses"].append((op[1], ti, r, r.read(10)))
@@ -586,6 +600,8 @@ def manager_configs() -> list[dict[str, typing.Any]]:
             {"num_pools": num_pools, "threads": [[["stream-begin", 0], ["request", 1]], [["request", 2], ["clear"], ["from_url", 0]]]},
             {"num_pools": num_pools, "threads": [[["from_url", 0], ["clear"], ["from_url", 0]], [["from_url", 0], ["request", 0], ["len"]]]},
             {"num_pools": num_pools, "threads": [[["stream-begin", 0], ["stream-begin", 1]], [["stream-begin", 2], ["from_url", 0], ["len"]]]},
+            {"num_pools": num_pools, "threads": [[["redirected", 0, 1], ["request", 2]], [["pool-urlopen", 1], ["request", 0], ["len"]]]},
+            {"num_pools": num_pools, "threads": [[["redirected", 0, 1], ["redirected", 1, 2], ["clear"]], [["pool-urlopen", 2], ["request", 1]]]},
         ]
     return out
 
